@@ -203,6 +203,9 @@ def run_transitions(ctx, desc):
                 dont_care = rng.choice([0, 0x20])
                 drive = D.Drive402(state=start, auto_delay=delay, extra=extra)
                 drive.dont_care = dont_care
+                # a drive whose quick stop ends in SWITCH ON DISABLED by itself: a command that arrives just after is ignored,
+                # the library has to plan again from where the drive really is
+                drive.qsa_auto = start == D.QSA and target != D.QSA and target in COMMANDABLE and rng.random() < 0.6
                 evt = rng.choice([None, 0, 100, 65535])
                 zero_ts = ticked and rng.random() < 0.5
                 rig = DriveRig(transport, drive, ticked, event_timer=evt, zero_ts=zero_ts)
@@ -219,7 +222,8 @@ def run_transitions(ctx, desc):
                             rig.close()
                             continue
                 case = {"workload": "transitions", "transport": transport, "start": start, "target": target, "auto_delay": delay,
-                        "extra_bits": extra, "dont_care": dont_care, "pdo_event_timer": evt, "frames_stamped_zero": zero_ts}
+                        "extra_bits": extra, "dont_care": dont_care, "pdo_event_timer": evt, "frames_stamped_zero": zero_ts,
+                        "quick_stop_ends_by_itself": drive.qsa_auto}
                 ctx.case(("transition", start, target, delay, transport), nontrivial=start != target)
                 ctx.count("transition_cases")
                 exc = None
